@@ -108,7 +108,7 @@ var c36Execs atomic.Int64
 func c36Run(bin, dir, tmpdir string, stdin []byte, args ...string) c36Result {
 	cmd := exec.Command(bin, args...)
 	cmd.Dir = dir
-	cmd.Env = []string{"PATH=/usr/bin:/bin", "NO_COLOR=1", "TMPDIR=" + tmpdir, "HOME=" + tmpdir}
+	cmd.Env = []string{"PATH=/usr/bin:/bin", "NO_COLOR=1", "TMPDIR=" + tmpdir, "HOME=" + tmpdir, "GOMAXPROCS=1"}
 	if stdin != nil {
 		cmd.Stdin = bytes.NewReader(stdin)
 	}
@@ -394,6 +394,7 @@ func c36FlagSets(quick bool) [][]string {
 
 func c36(c *vc.Ctx) {
 	c.Reruns = 1
+	c.BatchSize = 1 // every case runs several processes
 	tmp, err := os.MkdirTemp("", "c36-")
 	if err != nil {
 		fmt.Fprintln(os.Stderr, err)
@@ -409,7 +410,7 @@ func c36(c *vc.Ctx) {
 		die(err)
 	}
 	oracle := &c36Oracle{bin: bin, base: tmp}
-	maxFiles := vc.Pick(c, 3, 4)
+	maxFiles := vc.Pick(c, 2, 4)
 	sets := c36FlagSets(c.Quick())
 
 	// the kinds must be what their names say, else the enumeration is hollow
